@@ -67,6 +67,7 @@ class CouponList : public HllSketchImpl<A> {
 
     using vector_int = std::vector<uint32_t, typename std::allocator_traits<A>::template rebind_alloc<uint32_t>>;
 
+    void checkCouponCount() const;
     HllSketchImpl<A>* promoteHeapListToSet(CouponList& list);
     HllSketchImpl<A>* promoteHeapListOrSetToHll(CouponList& src);
 
